@@ -28,7 +28,7 @@ func probeMachine(c *cpu.CPU6502, cfg *emuconfig.Config) string {
 		c.SP = 0xF0
 		c.X, c.Y = 0, 0
 		err := c.RunExt(0x0300, true)
-		if err != nil && strings.Contains(err.Error(), "Illegal opcode") {
+		if err != nil { // one instruction with zero operands on plain RAM, D clear: the only possible error is "no such opcode"
 			isa.WriteString("0")
 		} else {
 			isa.WriteString("1")
